@@ -170,7 +170,7 @@ def set_prop(obj, p: str, v):
 
 
 def elem_of(obj):
-    for n in ("_element", "element", "_tc", "_tr", "_gridCol", "_tbl", "_xPr", "_xFill"):
+    for n in ("_element", "element", "_tc", "_tr", "_gridCol", "_tbl", "_xPr", "_xFill", "_rPr"):
         e = getattr(obj, n, None)
         if e is not None and hasattr(e, "xpath"):
             return e
@@ -382,7 +382,7 @@ def prepare(tier: str, seed: int, kinds: list | None = None) -> list:
                 "isFloat": dom in FLOAT_DOMS, "ntyp": len(pr["typ"]), "nmid": len(mids), "nthr": len(thrs), "nmem": len(mem), "nret": len(ret),
                 "none": bool(pr["none"]), "noneReads": pr["noneReads"], "coupled": [ix[n] for n in pr["coupled"]],
                 "weak": [ix[n] for n in pr["weak"]], "needs": absneeds, "needsObs": obs[0] if obs else 0, "ro": bool(pr["ro"]),
-                "truthy": dom == "bool" and not pr["strict"], "initSet": bool(obs) and init["r"][obs[0] - 1] != "None"})
+                "nonEmpty": bool(pr.get("nonempty")), "truthy": dom == "bool" and not pr["strict"], "initSet": bool(obs) and init["r"][obs[0] - 1] != "None"})
         RT["kinds"][k["kind"]] = {"kind": k["kind"], "deck": k["deck"], "path": k["path"], "props": rprops, "init": init}
         RT["order"].append(k["kind"])
         cat.append({"kind": k["kind"], "props": tprops})
